@@ -5,7 +5,10 @@ import (
 	"crypto/rsa"
 	"crypto/x509"
 	"crypto/x509/pkix"
+	"fmt"
 	"math/big"
+	"os"
+	"path/filepath"
 	"sync"
 	"time"
 )
@@ -16,17 +19,52 @@ var (
 	keyCache = map[int][]*rsa.PrivateKey{}
 )
 
+// rsaKey returns the idx-th key of the given size. Keys are shared between the
+// harness and its sandboxed workers through files in $VERIF_KEYDIR, so that a
+// certificate minted in one process names the key used in another.
 func rsaKey(bits, idx int) *rsa.PrivateKey {
 	keyMu.Lock()
 	defer keyMu.Unlock()
 	for len(keyCache[bits]) <= idx {
+		keyCache[bits] = append(keyCache[bits], loadOrMakeKey(bits, len(keyCache[bits])))
+	}
+	return keyCache[bits][idx]
+}
+
+func loadOrMakeKey(bits, idx int) *rsa.PrivateKey {
+	dir := os.Getenv("VERIF_KEYDIR")
+	if dir == "" {
 		k, err := rsa.GenerateKey(rand.Reader, bits)
 		if err != nil {
 			panic(err)
 		}
-		keyCache[bits] = append(keyCache[bits], k)
+		return k
 	}
-	return keyCache[bits][idx]
+	os.MkdirAll(dir, 0700)
+	path := filepath.Join(dir, fmt.Sprintf("rsa-%d-%d.der", bits, idx))
+	for attempt := 0; attempt < 600; attempt++ {
+		if b, err := os.ReadFile(path); err == nil {
+			if k, err := x509.ParsePKCS1PrivateKey(b); err == nil {
+				return k
+			}
+		}
+		// become the generator by creating the lock file exclusively
+		lock, err := os.OpenFile(path+".lock", os.O_CREATE|os.O_EXCL|os.O_WRONLY, 0600)
+		if err != nil {
+			time.Sleep(50 * time.Millisecond)
+			continue
+		}
+		k, gerr := rsa.GenerateKey(rand.Reader, bits)
+		if gerr != nil {
+			panic(gerr)
+		}
+		tmp := path + ".tmp"
+		os.WriteFile(tmp, x509.MarshalPKCS1PrivateKey(k), 0600)
+		os.Rename(tmp, path)
+		lock.Close()
+		return k
+	}
+	panic("could not obtain key " + path)
 }
 
 // mintCert makes a self-signed certificate for key with the given subject
